@@ -26,6 +26,11 @@ type Knobs struct {
 	Siblings bool // confusion-mutated sibling resources/scopes
 	Scale    int  // 0: tiny lists (0-3), 1: small (0-8), 2: medium (0-40)
 	Deep     bool // allow (rare) deep nesting chains up to MaxDepth
+	// NoTrailingNUL: no generated string ends in NUL bytes. Used by histories
+	// that interleave signals on one producer: the precondition of the known
+	// finding shared-writer-trailing-nul (DESIGN.md §2, D12) is excluded by
+	// construction and counted in Stats["excluded_trailing_nul"].
+	NoTrailingNUL bool
 }
 
 // InDomain are the knobs for the round-trip properties C01-C04.
@@ -151,7 +156,18 @@ var invalidUTF8 = []string{"\xff", "a\xc3", "\xed\xa0\x80", "\xf8\x88\x80\x80\x8
 
 // Str draws a string: mostly from the hostile pool, sometimes from the
 // stream's own pool, sometimes fresh.
-func (s *Stream) Str() string {
+func (s *Stream) Str() string { return s.nul(s.str0()) }
+
+// nul applies the NoTrailingNUL knob.
+func (s *Stream) nul(str string) string {
+	if s.K.NoTrailingNUL && strings.HasSuffix(str, "\x00") {
+		s.Stats["excluded_trailing_nul"]++
+		return strings.TrimRight(str, "\x00")
+	}
+	return str
+}
+
+func (s *Stream) str0() string {
 	switch k := rapid.IntRange(0, 11).Draw(s.T, "strk"); {
 	case k < 7:
 		return rapid.SampledFrom(HostileStrings).Draw(s.T, "hs")
@@ -182,7 +198,7 @@ var keyPool = []string{"k", "a", "b", "k2", "", "host", "x,y", "a:b", "K", "é",
 // Key draws an attribute key.
 func (s *Stream) Key() string {
 	if rapid.IntRange(0, 9).Draw(s.T, "keyk") < 9 {
-		return rapid.SampledFrom(keyPool).Draw(s.T, "key")
+		return s.nul(rapid.SampledFrom(keyPool).Draw(s.T, "key"))
 	}
 	return s.Str()
 }
@@ -453,7 +469,7 @@ func (s *Stream) confuse(m pcommon.Map) {
 			case 0:
 				v.SetStr(str + " ")
 			case 1:
-				v.SetStr(str + "\x00")
+				v.SetStr(s.nul(str + "\x00"))
 			case 2:
 				v.SetStr(strings.ToUpper(str))
 			default:
